@@ -254,10 +254,32 @@ class C06(Prop):
                     c = ("for", k, se, [0, 1], body)
                 if rng.chance(1, 4):
                     c = ("un", "not", c)
+            limit = None
+            if rng.chance(1, 6):
+                # occurrences and counts exactly at string_max_nb_matches, and ranges of a single offset: what the
+                # first pass may assume about matches it has not seen
+                v = rng.below(2)
+                limit = rng.choice([1, 2, 2, 3])
+                k = rng.choice([limit, limit, limit - 1, limit + 1])
+                c = rng.choice([("bin", "ge", ("offset", v, ("int", max(1, k))), ("int", 0)),
+                                ("bin", "ge", ("length", v, ("int", max(1, k))), ("int", 1)),
+                                ("bin", "eq", ("count", v), ("int", k)),
+                                ("defined", ("offset", v, ("int", max(1, k)))),
+                                ("bin", "eq", ("countin", v, ("int", rng.choice([0, 3, 6])), ("int", rng.choice([0, 3, 6]))), ("int", 1)),
+                                ("bin", "eq", ("countin", v, ("int", 0), ("int", 0)), ("int", 1)),
+                                ("bin", "ge", ("countin", v, ("int", 3), ("int", 3)), ("int", 1)),
+                                ("bin", "ge", ("countin", v, ("bin", "sub", ("filesize",), ("int", 2)), ("bin", "sub", ("filesize",), ("int", 2))), ("int", 1))])
+                if "countin" in json.dumps(c) and rng.chance(1, 2):
+                    limit = None
+                if rng.chance(1, 4):
+                    c = ("un", "not", c)
             rs = {"nns": 1, "rules": [{"id": 0, "ns": 0, "name": "r0", "global": False, "private": False,
                                        "ord_index": 0, "strings": strings, "cond": c}]}
             rs = json.loads(json.dumps(rs))
-            return {"rs": rs, "mem": rng.choice(ruleset.MEMS).hex()}
+            out = {"rs": rs, "mem": rng.choice(ruleset.MEMS + [b"ab ab ab", b"a a a a", b"xxab", b"ab ab ab", b"abcab", b"ab"]).hex()}
+            if limit:
+                out["limit"] = limit
+            return out
         if rng.chance(1, 12):
             # a namespace disabled by a false global rule, its ordinary rules declaring strings, and rules with
             # strings compiled after them in an enabled namespace: with include_not_matched the rules of the
@@ -316,6 +338,9 @@ class C06(Prop):
                         for api, kind, usep in self.SPECIAL_CONFIGS]
             if c.get("kind") == "pm":
                 return [{"params": {"process_memory": pm}, "api": api, "input_kind": kind} for pm, api, kind in self.PM_CONFIGS]
+            if c.get("limit"):
+                # the same nine configurations under a lowered string_max_nb_matches
+                return [dict(c_[1], params=dict(c_[1]["params"], string_max_nb_matches=c["limit"])) for c_ in CONFIGS]
             return [c_[1] for c_ in CONFIGS]
         hc = [{"rules": rules_of(c), "input": {"mem": c["mem"]}, "workdir": wd, "configs": configs_of(c)} for c in cases]
         return core.harness_run(ctx.binp, "c06", hc)
@@ -383,7 +408,7 @@ class C06(Prop):
                 if not v <= ref.get(k, set()):
                     ctx.notes.append("details of %s not a subset of the full run for %s" % (name, k))
                     return (False, False, 0)
-        return "C06_case %s %s %s" % (ruleset.g_scanner(rs), ruleset.g_inputs(rs, mem), glist(runs))
+        return "C06_case %s %s %s" % (ruleset.g_scanner(rs), ruleset.g_inputs(rs, mem, limit=case.get("limit") or 1000), glist(runs))
 
     def nontrivial(self, case, out):
         if case.get("kind") == "altlit":
